@@ -170,9 +170,21 @@ def run(chk: Check):
     threads0 = {t.ident for t in threading.enumerate()}
     exhaustive_spaces = []
     slow_env_budget = [6 if chk.tier == "quick" else 60]
-    for bi in range(n_base):
+    for bi in range(n_base + 1):
         sched = "rr" if bi % 2 == 0 else "rl"
         base = base_scn(rng, sched)
+        big = bi == n_base
+        if big:
+            # one batch whose fresh series take tens of megabytes (three parameters x two members x 750 000 steps): however the calibrator organises the work on a
+            # batch of that size, a failure late in the batch leaves the records aligned
+            sched = "rr"
+            base = base_scn(rng, "rr")
+            base.dims, base.ensemble, base.simlen, base.folder, base.dedup_passes = 1, 2, 750000, False, 0
+            base.bounds, base.precision = ((0.0,), (100.0,)), (0.5,)
+            base.lineup = [(base.lineup[0][0], 3, [[[float(rng.randint(0, 200)) / 2.0] for _ in range(3)] for _ in range(4)], None)]
+            base.loss_table = {}
+            base.ops = [("C", 2), ("C", 1)]
+            chk.count("batch_of_tens_of_megabytes")
         # verbosity only prints - also while a failure is being handled: half of the base scenarios (one per scheduler kind) are verbose
         base.verbose = bi % 4 in (0, 1)
         chk.count("verbose:" + str(base.verbose))
@@ -196,6 +208,8 @@ def run(chk: Check):
         free_lines, free_info = run_quiet(base)
         nS, nM, nL, nB = ch.STATE["sampler_calls"], ch.STATE["model_calls"], ch.STATE["loss_calls"], ch.STATE.get("batch_calls", 0)
         space = [("S", k) for k in range(nS)] + [("M", k) for k in range(nM)] + [("L", k) for k in range(nL)] + ([("B", k) for k in range(nB)] if base.dedup_passes else [])
+        if big:
+            space = [("M", 4), ("M", 5), ("L", 2), ("M", 11), ("L", 5)]      # late in the first batch, late in the second
         exhaustive_spaces.append({"scheduler": sched, "sampler_calls": nS, "model_calls": nM, "loss_calls": nL, "sample_batch_calls": nB if base.dedup_passes else None})
         free_first = hist_fields(free_lines[1])
         for fault in space:
